@@ -1238,3 +1238,276 @@ Section Exec4.
       destruct (dec_scalar k (sfx' z)) as [[v r]|]; [|reflexivity]. cbn [res_of slots_of unk_of putm]. rewrite Hnth. reflexivity.
   Qed.
 End Exec4.
+
+(* ---------------------------------------------------------------- map entries *)
+Lemma env_restore_len en en' : length en' = length en -> env_restore en en' = en'.
+Proof. intro H. unfold env_restore. rewrite H, Nat.sub_diag. reflexivity. Qed.
+Lemma Z_sub_sub a b : a - (a - b) = b.
+Proof. lia. Qed.
+
+Lemma gconv_s32 x : gconv 32 true (s32 x) = s32 x.
+Proof. rewrite <- of_pat_32s. unfold gconv. rewrite to_pat_of_pat by auto. apply of_pat_mod. auto. Qed.
+Lemma gconv_s64 x : gconv 64 true (s64 x) = s64 x.
+Proof. rewrite <- of_pat_64s. unfold gconv. rewrite to_pat_of_pat by auto. apply of_pat_mod. auto. Qed.
+#[export] Hint Rewrite gconv_s32 gconv_s64 : vals.
+
+Lemma s64_nonneg_u64 x : 0 <= s64 x -> Z.of_N (u64 x) = s64 x.
+Proof.
+  unfold s64, u64. pose proof (N.mod_upper_bound x two64 ltac:(discriminate)) as H.
+  destruct (N.ltb_spec (x mod two64) two63); [reflexivity|]. unfold two63, two64 in *. lia.
+Qed.
+
+Ltac done_env' :=
+  rewrite run_nil; cbn [leave]; repeat (rewrite env_restore_cons by (cbn [length]; lia)); rewrite env_restore_len by reflexivity.
+
+Section Exec5.
+  Variable sch : schema.
+  Variable discard : bool.
+  Variable child : child_t.
+  Variable depth : Z.
+  Variable fs : list field.
+  Variable data : list byte.
+  Variable lfuel : nat.
+  Notation dlen := (Z.of_nat (length data)).
+  Hypothesis Hlen : dlen < Z.of_N two63.
+  Hypothesis Hlen8 : dlen + 8 < Z.of_N two63.
+
+  Notation exec' := (exec sch discard child depth fs data dlen lfuel).
+  Notation run' := (run_block sch discard child depth fs data dlen lfuel).
+  Notation cond' := (cond sch discard depth fs data dlen).
+  Notation eval' := (eval sch fs data dlen).
+  Notation eval_int' := (eval_int sch fs data dlen).
+  Notation atom' := (exec_atom sch child fs data dlen).
+  Notation block' := (block sch discard child depth fs data dlen lfuel).
+  Notation for_loop' := (for_loop sch discard child depth fs data dlen lfuel).
+  Notation sfx' := (sfx data).
+  Notation at_ z ss u := {| us_idx := z; us_rest := sfx data z; us_slots := ss; us_unk := u |}.
+
+  Notation enE fn wire epre mv mk post L en0 :=
+    ((UvFieldNum, fn) :: (UvWire, wire) :: (UvEntryPreIndex, epre) :: (UvMap false, mv) :: (UvMap true, mk)
+     :: (UvPostIndex, LV (VInt post)) :: (UvMsglen, L) :: en0).
+
+  Definition then_check (r : xres) : xres :=
+    match r with
+    | XNext en' st' => run' [UsIf (CCmp OGt EIdx (u_v UvPostIndex)) (u_ret ErEOF)] en' st'
+    | r => r
+    end.
+
+  Lemma then_check_next en' z ss u post : env_get UvPostIndex en' = Some (LV (VInt post)) ->
+    then_check (XNext en' (at_ z ss u)) = if post <? z then XDone Err else XNext en' (at_ z ss u).
+  Proof. intro H. cbn [then_check]. rewrite run_if_ret by discriminate. ev. rewrite H. ev. rewrite run_nil. reflexivity. Qed.
+
+  Definition set_mapvar (key : bool) (x : lval) (mv mk : lval) : lval * lval := if key then (mv, x) else (x, mk).
+
+  Lemma mapfield_scalar key k fn wire epre mv mk post L en0 z ss u :
+    0 <= z <= dlen -> post <= dlen ->
+    then_check (block' (u_mapfield key (TScalar k)) (enE fn wire epre mv mk post L en0) (at_ z ss u)) =
+    match dec_scalar k (sfx' z) with
+    | None => XDone Err
+    | Some (v, r) =>
+      let z' := dlen - Z.of_nat (length r) in
+      if post <? z' then XDone Err
+      else XNext (enE fn wire epre (fst (set_mapvar key (LV v) mv mk)) (snd (set_mapvar key (LV v) mv mk)) post L en0) (at_ z' ss u)
+    end.
+  Proof.
+    intros Hz Hpost. unfold block.
+    destruct k; destruct key; unfold u_mapfield; cbn [dec_scalar kind_gty app set_mapvar fst snd].
+    all: try (atom; rewrite run_varint_var by side;
+         (destruct (dec_varint (sfx' z)) as [[[raw m] r1]|] eqn:Ed; [|reflexivity]);
+         destruct (dec_varint_sfx data z raw m r1 Hz Ed) as (-> & Hm1 & Hm2);
+         ev; repeat atom; done_env'; rewrite (then_check_next _ _ _ _ post) by reflexivity;
+         cbv zeta; rewrite sfx_len by lia; rewrite Z_sub_sub; cbn [varint_val]; autorewrite with vals; reflexivity).
+    all: try (try atom;
+         try (match goal with |- context [run_block _ _ _ _ _ _ _ _ (u_fixed64 ?a ?b) _ _] => rewrite <- (app_nil_r (u_fixed64 a b)) end);
+         try (match goal with |- context [run_block _ _ _ _ _ _ _ _ (u_fixed32 ?a ?b) _ _] => rewrite <- (app_nil_r (u_fixed32 a b)) end);
+         first [ erewrite run_fixed64_var; [|side ..] | erewrite run_fixed32_var; [|side ..] ];
+         match goal with Hz0 : 0 <= ?zz <= _ |- context [take_fixed ?k (sfx _ ?zz)] =>
+           destruct (take_fixed k (sfx data zz)) as [[n r]|] eqn:Et; [|reflexivity];
+           destruct (take_fixed_inv data k zz n r Hz0 Et) as (-> & Hz8 & Hb) end;
+         try rewrite pow256_8 in Hb; try rewrite pow256_4 in Hb;
+         ev; repeat atom; done_env'; rewrite (then_check_next _ _ _ _ post) by reflexivity;
+         cbv zeta; rewrite sfx_len by lia; rewrite Z_sub_sub; cbn [fixed_val Z.of_nat Pos.of_succ_nat Pos.succ]; autorewrite with vals;
+         try (rewrite u64_small by assumption); try (rewrite u32_small by assumption);
+         try (rewrite to_pat64_small by assumption); try (rewrite to_pat32_small by assumption); reflexivity).
+    all: atom; rewrite run_varint_var by side; unfold take_len;
+         (destruct (dec_varint (sfx' z)) as [[[raw m] r1]|] eqn:Ed; [|reflexivity]);
+         destruct (dec_varint_sfx data z raw m r1 Hz Ed) as (-> & Hm1 & Hm2);
+         ev; atom; autorewrite with vals; lencheck; rewrite sfx_len by lia;
+         (destruct (Z.ltb_spec (s64 raw) 0) as [|E1]; [reflexivity|]);
+         remember (z + Z.of_nat m) as z1 eqn:Ez1; remember (s64 raw) as Ln eqn:EL;
+         (destruct (Z.ltb_spec (post - z1) Ln) as [E2|E2];
+          [ destruct (Z.ltb_spec (dlen - z1) Ln); [reflexivity|]; cbv zeta; rewrite sfx_skipn, sfx_len by lia; rewrite Z_sub_sub;
+            destruct (Z.ltb_spec post (z1 + Ln)); [reflexivity|lia] |]);
+         (destruct (Z.ltb_spec (dlen - z1) Ln); [lia|]); cbv zeta; rewrite sfx_skipn, sfx_len by lia; rewrite Z_sub_sub;
+         (destruct (Z.ltb_spec post (z1 + Ln)); [lia|]).
+    - atom. rewrite slice_at by lia. ev. idxset. done_env'. rewrite (then_check_next _ _ _ _ post) by reflexivity.
+      destruct (Z.ltb_spec post (z1 + Ln)); [lia|]. replace (z1 + Ln - z1) with Ln by lia. reflexivity.
+    - atom. rewrite slice_at by lia. ev. idxset. done_env'. rewrite (then_check_next _ _ _ _ post) by reflexivity.
+      destruct (Z.ltb_spec post (z1 + Ln)); [lia|]. replace (z1 + Ln - z1) with Ln by lia. reflexivity.
+    - atom. rewrite (s64_nonneg_u64 raw) by lia. rewrite <- EL. destruct (Z.ltb_spec Ln 0); [lia|]. ev.
+      atom. rewrite slice_at by lia. ev. replace (z1 + Ln - z1) with Ln by lia.
+      rewrite (go_copy_fresh data) by (apply firstn_sfx_len; lia).
+      idxset. done_env'. rewrite (then_check_next _ _ _ _ post) by reflexivity.
+      destruct (Z.ltb_spec post (z1 + Ln)); [lia|]. reflexivity.
+    - atom. rewrite (s64_nonneg_u64 raw) by lia. rewrite <- EL. destruct (Z.ltb_spec Ln 0); [lia|]. ev.
+      atom. rewrite slice_at by lia. ev. replace (z1 + Ln - z1) with Ln by lia.
+      rewrite (go_copy_fresh data) by (apply firstn_sfx_len; lia).
+      idxset. done_env'. rewrite (then_check_next _ _ _ _ post) by reflexivity.
+      destruct (Z.ltb_spec post (z1 + Ln)); [lia|]. reflexivity.
+  Qed.
+
+  Lemma mapfield_msg m vs vu fn wire epre mk post L en0 z ss u :
+    0 <= z <= dlen -> post <= dlen ->
+    then_check (block' (u_mapfield false (TMsg m)) (enE fn wire epre (LM m (VMsg vs vu)) mk post L en0) (at_ z ss u)) =
+    match take_len (sfx' z) with
+    | None => XDone Err
+    | Some (payload, r) =>
+      let z' := dlen - Z.of_nat (length r) in
+      if post <? z' then XDone Err
+      else match child m (VMsg vs vu) payload with
+           | Ok v => XNext (enE fn wire epre (LM m v) mk post L en0) (at_ z' ss u)
+           | Err => XDone Err | Panic => XDone Panic | OutOfFuel => XDone OutOfFuel
+           end
+    end.
+  Proof.
+    intros Hz Hpost. unfold block, u_mapfield. cbn [app].
+    atom. rewrite run_varint_var by side. unfold take_len.
+    destruct (dec_varint (sfx' z)) as [[[raw m0] r1]|] eqn:Ed; [|reflexivity].
+    destruct (dec_varint_sfx data z raw m0 r1 Hz Ed) as (-> & Hm1 & Hm2).
+    ev. autorewrite with vals. lencheck. rewrite sfx_len by lia.
+    destruct (Z.ltb_spec (s64 raw) 0) as [|E1]; [reflexivity|].
+    remember (z + Z.of_nat m0) as z1 eqn:Ez1. remember (s64 raw) as Ln eqn:EL.
+    destruct (Z.ltb_spec (post - z1) Ln) as [E2|E2].
+    { destruct (Z.ltb_spec (dlen - z1) Ln); [reflexivity|]. cbv zeta. rewrite sfx_skipn, sfx_len by lia. rewrite Z_sub_sub.
+      destruct (Z.ltb_spec post (z1 + Ln)); [reflexivity|lia]. }
+    destruct (Z.ltb_spec (dlen - z1) Ln); [lia|]. cbv zeta. rewrite sfx_skipn, sfx_len by lia. rewrite Z_sub_sub.
+    destruct (Z.ltb_spec post (z1 + Ln)); [lia|].
+    atom. rewrite slice_at by lia. ev. replace (z1 + Ln - z1) with Ln by lia.
+    destruct (child m (VMsg vs vu) _) as [v| | |]; ev; try reflexivity.
+    idxset. done_env'. rewrite (then_check_next _ _ _ _ post) by reflexivity.
+    destruct (Z.ltb_spec post (z1 + Ln)); [lia|]. reflexivity.
+  Qed.
+
+  Lemma mapskip fn wire mv mk post L en0 z0 z ss u :
+    0 <= z0 <= dlen -> 0 <= z <= dlen -> post <= dlen ->
+    then_check (block' (u_skip UvEntryPreIndex (u_v UvPostIndex) ++ [UsIdxAdd (u_v UvSkippy)])
+                       (enE fn wire (LV (VInt z0)) mv mk post L en0) (at_ z ss u)) =
+    match Skip (sfx' z0) with
+    | Ok skippy => if post - z0 <? skippy then XDone Err
+                   else XNext (enE fn wire (LV (VInt z0)) mv mk post L en0) (at_ (z0 + skippy) ss u)
+    | _ => XDone Err
+    end.
+  Proof.
+    intros Hz0 Hz Hpost. unfold block.
+    erewrite run_skip; [|side ..].
+    destruct (Skip_ok_or_err (sfx' z0)) as [[n Hn]|Hn]; rewrite Hn; [|reflexivity].
+    pose proof (Skip_upper (sfx' z0) n) as Hup. rewrite sfx_len in Hup by lia. specialize (Hup ltac:(lia) Hn).
+    destruct (Z.ltb_spec (post - z0) n); [reflexivity|].
+    idxadd. done_env'. rewrite (then_check_next _ _ _ _ post) by reflexivity.
+    destruct (Z.ltb_spec post (z0 + n)); [lia|]. reflexivity.
+  Qed.
+
+  Hypothesis Hchild_wt : child_wt sch child.
+
+  Notation enM mv mk post L en0 :=
+    ((UvMap false, mv) :: (UvMap true, mk) :: (UvPostIndex, LV (VInt post)) :: (UvMsglen, L) :: en0).
+
+  Definition mval (t : ftype) (v : val) : lval := match t with TScalar _ => LV v | TMsg m => LM m v end.
+  Definition value_ok (t : ftype) (v : val) : Prop := match t with TScalar _ => True | TMsg m => wt_msg sch m v = true end.
+
+  Definition entry_body (kk : kind) (t : ftype) : list ustmt :=
+    [UsDecl UvEntryPreIndex EIdx;
+     UsVar UvWire GU64; UsVarint (TgVar UvWire) GU64;
+     UsDecl UvFieldNum (EConv GI32 (EShr (u_v UvWire) 3));
+     UsIfElse (CCmp OEq (u_v UvFieldNum) (ENum 1)) (u_mapfield true (TScalar kk))
+       [UsIfElse (CCmp OEq (u_v UvFieldNum) (ENum 2)) (u_mapfield false t)
+          (u_skip UvEntryPreIndex (u_v UvPostIndex) ++ [UsIdxAdd (u_v UvSkippy)])];
+     UsIf (CCmp OGt EIdx (u_v UvPostIndex)) (u_ret ErEOF)].
+
+  Lemma then_check_fold R :
+    match R with
+    | XNext en' st' => run' [UsIf (CCmp OGt EIdx (u_v UvPostIndex)) (u_ret ErEOF)] en' st'
+    | XDone o => XDone o
+    | XStuck => XStuck
+    end = then_check R.
+  Proof. destruct R; reflexivity. Qed.
+
+  Lemma wt_msg_VMsg m v : wt_msg sch m v = true -> exists vs vu, v = VMsg vs vu.
+  Proof. destruct v; try discriminate. eauto. Qed.
+
+  Lemma entry_for kk t post L en0 ss u : post <= dlen ->
+    forall fuel1 fuel2 z key value,
+    0 <= z <= post -> value_ok t value ->
+    (length (sfx' z) < fuel1)%nat -> (length (sfx' z) < fuel2)%nat ->
+    for_loop' fuel1 (CCmp OLt EIdx (u_v UvPostIndex)) (entry_body kk t)
+              (enM (mval t value) (LV key) post L en0) (at_ z ss u) =
+    match entry_loop child fuel2 kk t (post - z) key value (sfx' z) with
+    | Ok (k', v') => XNext (enM (mval t v') (LV k') post L en0) (at_ post ss u)
+    | Err => XDone Err | Panic => XDone Panic | OutOfFuel => XDone OutOfFuel
+    end.
+  Proof.
+    intro Hpost.
+    induction fuel1 as [|fuel1 IH]; intros fuel2 z key value Hz Hv Hf1 Hf2; [lia|].
+    destruct fuel2 as [|fuel2]; [lia|].
+    cbn [for_loop entry_loop]. cbv zeta. ev.
+    destruct (Z.ltb_spec z post) as [Hlt|Hge]; destruct (Z.leb_spec (post - z) 0) as [Hk|Hk]; try lia.
+    2:{ replace z with post by lia. reflexivity. }
+    unfold block, entry_body. atom. atom. rewrite run_varint_var by side.
+    destruct (dec_varint (sfx' z)) as [[[raw m] r1]|] eqn:Ed; [|reflexivity].
+    destruct (dec_varint_sfx data z raw m r1 ltac:(lia) Ed) as (-> & Hm1 & Hm2).
+    ev. atom. autorewrite with vals.
+    remember (z + Z.of_nat m) as z1 eqn:Ez1.
+    rewrite run_ifelse. ev. rewrite then_check_fold.
+    assert (Hcont : forall z' key' value', z < z' -> z' <= post -> value_ok t value' ->
+              match leave (enM (mval t value) (LV key) post L en0)
+                      (XNext (enE (LV (VInt (s32 (u64 raw / 8)))) (LV (VInt (Z.of_N (u64 raw)))) (LV (VInt z))
+                                  (mval t value') (LV key') post L en0) (at_ z' ss u)) with
+              | XNext en' st' => for_loop' fuel1 (CCmp OLt EIdx (u_v UvPostIndex)) (entry_body kk t) en' st'
+              | r => r end =
+              match entry_loop child fuel2 kk t (post - z') key' value' (sfx' z') with
+              | Ok (k', v') => XNext (enM (mval t v') (LV k') post L en0) (at_ post ss u)
+              | Err => XDone Err | Panic => XDone Panic | OutOfFuel => XDone OutOfFuel
+              end).
+    { intros z' key' value' Hz1 Hz' Hv'. cbn [leave].
+      repeat (rewrite env_restore_cons by (cbn [length]; lia)). rewrite env_restore_len by reflexivity.
+      apply IH; try lia; try exact Hv'.
+      - pose proof (sfx_len data z' ltac:(lia)). pose proof (sfx_len data z ltac:(lia)). lia.
+      - pose proof (sfx_len data z' ltac:(lia)). pose proof (sfx_len data z ltac:(lia)). lia. }
+    assert (Hused : forall z', 0 <= z' <= dlen ->
+              post - z - (Z.of_nat (length (sfx' z)) - Z.of_nat (length (sfx' z'))) = post - z').
+    { intros z' Hz'. rewrite !sfx_len by lia. lia. }
+    destruct (Z.eqb_spec (s32 (u64 raw / 8)) 1) as [E1|E1].
+    - (* key *)
+      rewrite mapfield_scalar by lia.
+      destruct (dec_scalar kk (sfx' z1)) as [[v r]|] eqn:Eds; [|reflexivity].
+      destruct (dec_scalar_sfx data kk z1 v r ltac:(lia) Eds) as (z' & -> & Hz').
+      cbv zeta. rewrite Hused by lia. rewrite (sfx_len data z') by lia. rewrite Z_sub_sub.
+      destruct (Z.ltb_spec post z'); destruct (Z.ltb_spec (post - z') 0); try lia; [reflexivity|].
+      cbn [set_mapvar fst snd]. apply Hcont; [lia|lia|exact Hv].
+    - rewrite block_ifelse. ev.
+      destruct (Z.eqb_spec (s32 (u64 raw / 8)) 2) as [E2|E2].
+      + (* value *)
+        destruct t as [kd|m0]; cbn [mval value_ok] in *.
+        * rewrite mapfield_scalar by lia.
+          destruct (dec_scalar kd (sfx' z1)) as [[v r]|] eqn:Eds; [|reflexivity].
+          destruct (dec_scalar_sfx data kd z1 v r ltac:(lia) Eds) as (z' & -> & Hz').
+          cbv zeta. rewrite Hused by lia. rewrite (sfx_len data z') by lia. rewrite Z_sub_sub.
+          destruct (Z.ltb_spec post z'); destruct (Z.ltb_spec (post - z') 0); try lia; [reflexivity|].
+          cbn [set_mapvar fst snd]. apply (Hcont z' key v); [lia|lia|exact I].
+        * destruct (wt_msg_VMsg m0 value Hv) as (vs & vu & ->).
+          rewrite mapfield_msg by lia.
+          destruct (take_len (sfx' z1)) as [[payload r]|] eqn:Etl; [|reflexivity].
+          destruct (take_len_sfx data z1 payload r ltac:(lia) Etl) as (z2 & Ln & Hz2 & HLn & Hz2' & -> & ->).
+          cbv zeta. rewrite Hused by lia. rewrite (sfx_len data (z2 + Ln)) by lia. rewrite Z_sub_sub.
+          destruct (Z.ltb_spec post (z2 + Ln)); destruct (Z.ltb_spec (post - (z2 + Ln)) 0); try lia; [reflexivity|].
+          destruct (child m0 (VMsg vs vu) _) as [v| | |] eqn:Ec; try reflexivity.
+          apply (Hcont (z2 + Ln) key v); [lia|lia|]. eapply Hchild_wt; [|exact Ec]. exact Hv.
+      + (* skip *)
+        rewrite mapskip by lia.
+        destruct (Skip_ok_or_err (sfx' z)) as [[n Hn]|Hn]; rewrite Hn; [|reflexivity].
+        pose proof (Skip_upper (sfx' z) n) as Hup. rewrite sfx_len in Hup by lia. specialize (Hup ltac:(lia) Hn).
+        destruct (Z.ltb_spec (post - z) n); [reflexivity|].
+        rewrite sfx_zskipn by lia. replace (post - z - n) with (post - (z + n)) by lia.
+        apply (Hcont (z + n) key value); [lia|lia|exact Hv].
+  Qed.
+End Exec5.
